@@ -13,10 +13,19 @@
 //! `b + (a − b) = a` and the order follows the sign; operators agree with the checked forms or
 //! panic; zone-aware values behave as their UTC readings whatever the offset; iterators step by
 //! 1 / 7 days, stop at the range limit, and their length hint is the number of items produced.
+//!
+//! Ops with prefix `ax.` (lean/Chrono/Drv/DateArithExt.lean, audit gaps of 2026-09-30): `size_hint`
+//! as the `(lo, Some(hi))` pair, scripts of interleaved `next` / `next_back` calls with the hint
+//! before every call, the `+=` / `-=` forms (their own result, not only equality with `+` / `-`),
+//! `Ord` / `PartialOrd` / `PartialEq` of zone-aware values.  Their oracles: a cursor simulated on day
+//! numbers; i128 instants for the `std::time::Duration` operators, `NaiveDateTime ± Days` and the
+//! order of zone-aware values; range ends under every offset.  Backward iteration: the oracle of the
+//! recorded finding F28 (`backward iteration: size_hint is not the number of items next_back still
+//! produces`) plus the oracle of what does hold (the hint is the forward count from the cursor).
 use super::c01::{gen_date, is_leap, yof, MAX_YEAR, MIN_YEAR};
 use super::c06::raw as td_raw;
 use crate::ctx::*;
-use chrono::{DateTime, Datelike, Days, FixedOffset, NaiveDate, NaiveDateTime, NaiveTime, TimeDelta, Timelike};
+use chrono::{DateTime, Datelike, Days, FixedOffset, NaiveDate, NaiveDateTime, NaiveTime, TimeDelta, Timelike, Utc};
 use std::collections::BTreeMap;
 use std::time::Duration;
 
@@ -475,6 +484,7 @@ pub fn run(c: &mut Ctx) {
                 }
             });
             c.op(&format!("{} {} {ds} {dnn}", if add { "ar.dopadd" } else { "ar.dopsub" }, yof(&d)), &s_d(&op.map(|p| p.0)));
+            c.op(&format!("ax.dasg {} {} {ds} {dnn}", if add { "+" } else { "-" }, yof(&d)), &s_d(&op.map(|p| p.1)));
             match (&got, &op) {
                 (Ok(Some(x)), Ok((a, b))) if a == x && b == x => {}
                 (Ok(None), Err(())) => {}
@@ -604,6 +614,17 @@ pub fn run(c: &mut Ctx) {
                 }
             });
             c.op(&format!("{} {} {ds} {dnn}", if add { "ar.dtopadd" } else { "ar.dtopsub" }, enc_dt(&dt)), &s_dt(&op.map(|p| p.0)));
+            c.op(&format!("ax.dtasg {} {} {ds} {dnn}", if add { "+" } else { "-" }, enc_dt(&dt)), &s_dt(&op.map(|p| p.1)));
+            // the operator judged directly: the exact instant, or a panic exactly when it is not representable
+            if !leap {
+                let target = inst(&dt) + signed;
+                let in_range = target >= imin && target <= imax;
+                match &op {
+                    Ok((a, b)) if in_range && inst(a) == target && a == b && !is_leap_dt(a) => {}
+                    Err(()) if !in_range => {}
+                    _ => fl.hit(c, "`NaiveDateTime ± TimeDelta` is not the exact instant / does not panic exactly when the instant is not representable", || format!("{:?} {ds} {dnn}", dt)),
+                }
+            }
             match (&got, &op) {
                 (Ok(Some(x)), Ok((a, b))) if a == x && b == x => c.count("dt-operator:value"),
                 (Ok(None), Err(())) => c.count("dt-operator:panic(refused by checked form)"),
@@ -621,6 +642,32 @@ pub fn run(c: &mut Ctx) {
             let sd = Duration::new(ss, nn);
             let op = guard(|| if add { dt + sd } else { dt - sd });
             c.op(&format!("{} {} {ss} {nn}", if add { "ar.dtstdadd" } else { "ar.dtstdsub" }, enc_dt(&dt)), &s_dt(&op));
+            let asg = guard(|| {
+                let mut x = dt;
+                if add {
+                    x += sd;
+                } else {
+                    x -= sd;
+                }
+                x
+            });
+            c.op(&format!("ax.dtstdasg {} {} {ss} {nn}", if add { "+" } else { "-" }, enc_dt(&dt)), &s_dt(&asg));
+            if asg != op {
+                fl.hit(c, "`NaiveDateTime ±= std Duration` differs from `± std Duration`", || format!("{:?} {ss} {nn}", dt));
+            }
+            if !leap {
+                // independent: the instant s·10⁹ + n ns away, or a panic exactly when the duration is
+                // beyond the TimeDelta range or the instant is not representable
+                let k = ss as i128 * NS + nn as i128;
+                let target = inst(&dt) + if add { k } else { -k };
+                let fits = k <= TD_MAX_NS && target >= imin && target <= imax;
+                c.count(if fits { "dt-std-operator:oracle:value" } else if k > TD_MAX_NS { "dt-std-operator:oracle:duration>TimeDelta::MAX" } else { "dt-std-operator:oracle:instant-out-of-range" });
+                match &op {
+                    Ok(x) if fits && inst(x) == target && !is_leap_dt(x) && well_formed(&x.date()) => {}
+                    Err(()) if !fits => {}
+                    _ => fl.hit(c, "`NaiveDateTime ± std Duration` is not the exact instant / does not panic exactly when it is not representable", || format!("{:?} {ss} {nn}", dt)),
+                }
+            }
             let via = guard(|| TimeDelta::from_std(sd).ok().and_then(|t| if add { dt.checked_add_signed(t) } else { dt.checked_sub_signed(t) }));
             match (&via, &op) {
                 (Ok(Some(x)), Ok(y)) if x == y => c.count("dt-std-operator:value"),
@@ -636,6 +683,15 @@ pub fn run(c: &mut Ctx) {
             let want = guard(|| if add { dt.date().checked_add_days(Days::new(cnt)) } else { dt.date().checked_sub_days(Days::new(cnt)) }).map(|o| o.map(|d| NaiveDateTime::new(d, dt.time())));
             if r != want {
                 fl.hit(c, "NaiveDateTime ± Days is not the date moved with the time of day kept", || format!("{:?} {cnt}", dt));
+            }
+            // independent: the day number moves by exactly the count, the time of day is kept
+            let tday = dn(&dt.date()) as i128 + if add { cnt as i128 } else { -(cnt as i128) };
+            let day_ok = tday >= dmin as i128 && tday <= dmax as i128;
+            c.count(if day_ok { "dt±Days:in-range" } else { "dt±Days:refused" });
+            match &r {
+                Ok(Some(x)) if day_ok && dn(&x.date()) as i128 == tday && x.time() == dt.time() && well_formed(&x.date()) => {}
+                Ok(None) if !day_ok => {}
+                _ => fl.hit(c, "NaiveDateTime ± Days did not move the date by exactly that many days keeping the time, or refused a representable day", || format!("{:?} {cnt}", dt)),
             }
             let op = guard(|| if add { dt + Days::new(cnt) } else { dt - Days::new(cnt) });
             c.op(&format!("{} {} {cnt}", if add { "ar.dtopcadd" } else { "ar.dtopcsub" }, enc_dt(&dt)), &s_dt(&op));
@@ -739,6 +795,16 @@ pub fn run(c: &mut Ctx) {
                 }
             });
             c.op(&format!("{} {} {ds} {dnn}", if add { "ar.zopadd" } else { "ar.zopsub" }, enc_z(&z)), &s_z(&op.map(|p| p.0)));
+            c.op(&format!("ax.zasg {} {} {ds} {dnn}", if add { "+" } else { "-" }, enc_z(&z)), &s_z(&op.map(|p| p.1)));
+            if !is_leap_dt(&utc) {
+                let target = inst(&utc) + if add { ns } else { -ns };
+                let in_range = target >= imin && target <= imax;
+                match &op {
+                    Ok((a, b)) if in_range && inst(&a.naive_utc()) == target && inst(&b.naive_utc()) == target && a.offset().local_minus_utc() == off && b.offset().local_minus_utc() == off => {}
+                    Err(()) if !in_range => {}
+                    _ => fl.hit(c, "`DateTime ± TimeDelta` / `±=` is not the exact instant with the offset kept / does not panic exactly when the instant is not representable", || format!("{} {ds} {dnn}", enc_z(&z))),
+                }
+            }
             match (&got, &op) {
                 (Ok(Some(x)), Ok((a, b))) if enc_z(a) == enc_z(x) && enc_z(b) == enc_z(x) => {}
                 (Ok(None), Err(())) => {}
@@ -764,6 +830,17 @@ pub fn run(c: &mut Ctx) {
                 }
             });
             c.op(&format!("{} {} {ss} {nn}", if add { "ar.zstdadd" } else { "ar.zstdsub" }, enc_z(&z)), &s_z(&op.clone().map(|p| p.0)));
+            c.op(&format!("ax.zstdasg {} {} {ss} {nn}", if add { "+" } else { "-" }, enc_z(&z)), &s_z(&op.clone().map(|p| p.1)));
+            if !is_leap_dt(&utc) {
+                let k = ss as i128 * NS + nn as i128;
+                let target = inst(&utc) + if add { k } else { -k };
+                let fits = k <= TD_MAX_NS && target >= imin && target <= imax;
+                match &op {
+                    Ok((a, b)) if fits && inst(&a.naive_utc()) == target && inst(&b.naive_utc()) == target && a.offset().local_minus_utc() == off => {}
+                    Err(()) if !fits => {}
+                    _ => fl.hit(c, "`DateTime ± std Duration` is not the exact instant / does not panic exactly when it is not representable", || format!("{} {ss} {nn}", enc_z(&z))),
+                }
+            }
             if let Ok((a, b)) = &op {
                 if enc_z(a) != enc_z(b) {
                     fl.hit(c, "`DateTime ± std Duration` and `±=` disagree", || format!("{:?} {ss} {nn}", z));
@@ -785,6 +862,37 @@ pub fn run(c: &mut Ctx) {
             if d1 != d2 || d1 != d3 {
                 fl.hit(c, "the difference of zone-aware values is not the difference of their UTC values", || format!("{:?} {:?}", z, w));
             }
+            // Ord / PartialOrd / PartialEq, also against a value of another zone type
+            let wu: DateTime<Utc> = DateTime::<Utc>::from_naive_utc_and_offset(other, Utc);
+            let ord = guard(|| (z.cmp(&w) as i32, z.partial_cmp(&w).map(|o| o as i32), z == w, z.partial_cmp(&wu).map(|o| o as i32), z == wu, z < w, z <= w, z > w, z >= w));
+            c.op(&format!("ax.zcmp {} {}", enc_z(&z), enc_z(&w)), &match &ord {
+                Ok((a, b, e, ..)) => format!("{a} {} {e}", b.map(|v| v.to_string()).unwrap_or_else(|| "none".into())),
+                Err(()) => "panic".into(),
+            });
+            match &ord {
+                Ok((a, b, e, b2, e2, lt, le, gt, ge)) => {
+                    if *b != Some(*a) || *b2 != Some(*a) || *e != (*a == 0) || *e2 != *e || *lt != (*a < 0) || *le != (*a <= 0) || *gt != (*a > 0) || *ge != (*a >= 0) {
+                        fl.hit(c, "Ord / PartialOrd / PartialEq of zone-aware values are not one order", || format!("{} {}", enc_z(&z), enc_z(&w)));
+                    }
+                    // every operand, leap-second representations included: lexicographic on
+                    // (whole seconds since the epoch, nanosecond field) — theorem zoned_cmp_general
+                    let key = |d: &NaiveDateTime| ((dn(&d.date()) as i128 - EPOCH_DAY) * 86_400 + d.time().num_seconds_from_midnight() as i128, d.time().nanosecond());
+                    if *a != key(&utc).cmp(&key(&other)) as i32 {
+                        fl.hit(c, "the order of zone-aware values is not lexicographic on (seconds since the epoch, nanosecond field)", || format!("{} {}", enc_z(&z), enc_z(&w)));
+                    }
+                    if is_leap_dt(&utc) || is_leap_dt(&other) {
+                        c.count("zcmp:leap-second-operand");
+                    }
+                    if !is_leap_dt(&utc) && !is_leap_dt(&other) {
+                        let want = (inst(&utc) - inst(&other)).signum() as i32;
+                        c.count(match want { 0 => "zcmp:equal-instants", 1 => "zcmp:later", _ => "zcmp:earlier" });
+                        if *a != want {
+                            fl.hit(c, "the order of zone-aware values is not the order of their instants", || format!("{} {}", enc_z(&z), enc_z(&w)));
+                        }
+                    }
+                }
+                Err(()) => fl.hit(c, "comparing zone-aware values panicked", || format!("{} {}", enc_z(&z), enc_z(&w))),
+            }
             if let Ok(x) = &d1 {
                 if (z.cmp(&w) as i32) != (utc.cmp(&other) as i32) || (!is_leap_dt(&utc) && !is_leap_dt(&other) && (z.cmp(&w) as i32) != td_ns(x).signum() as i32) {
                     fl.hit(c, "order of zone-aware values does not follow the instants", || format!("{:?} {:?}", z, w));
@@ -801,8 +909,10 @@ pub fn run(c: &mut Ctx) {
         let back = kind.ends_with('b');
         let cap = 1 + c.rng.below(24) as usize;
         // start so that the end of the range is reached within (or just beyond) the cap, or anywhere
-        let start = match c.rng.below(4) {
-            0 => g_date(c),
+        let start = match c.rng.below(40) {
+            0..=9 => g_date(c),
+            // the cursors halfway between MIN and MAX: the only ones whose hint is also right backward
+            10 => date_of_dn((dmin + dmax) / 2 + c.rng.range(-8, 8)),
             _ => {
                 let k = (c.rng.below(cap as u64 + 3) as i64 * step + c.rng.range(0, step - 1)) as u64;
                 if back != c.rng.chance(1, 12) {
@@ -872,6 +982,23 @@ pub fn run(c: &mut Ctx) {
                         if *lo as i64 != remaining {
                             fl.hit(c, "size_hint is not the number of items the iterator still produces", || format!("{kind} {:?} k={k} hint={lo} remaining={remaining}", start));
                         }
+                    } else {
+                        // backward: the property's "exact length hint" read for next_back (finding F28) …
+                        let remaining = (total_back - k as i64).max(0);
+                        if *lo as i64 != remaining {
+                            c.count("iter:back:hint≠items-still-produced(F28)");
+                            fl.hit(c, "backward iteration: size_hint is not the number of items next_back still produces", || format!("{kind} {:?} k={k} hint={lo} remaining={remaining}", start));
+                        } else {
+                            c.count("iter:back:hint=items-still-produced(cursor halfway)");
+                        }
+                        // … and what does hold (theorem iter_back_hint): the cursor stands k steps below the
+                        // start (one fewer if the last call was refused) and the hint is the forward count
+                        // from the cursor, so it grows by one per item
+                        let moved = (k as i64).min(total_back);
+                        let fwd_from_cursor = (dmax - (s0 - moved * step)) / step;
+                        if *lo as i64 != fwd_from_cursor {
+                            fl.hit(c, "size_hint of a backward-driven iterator is not the forward count from its cursor", || format!("{kind} {:?} k={k} hint={lo} expected={fwd_from_cursor}", start));
+                        }
                     }
                 }
                 let produced = v.iter().filter(|x| x.3.is_some()).count() as i64;
@@ -911,6 +1038,234 @@ pub fn run(c: &mut Ctx) {
             Err(()) => fl.hit(c, "iterator panicked", || format!("{kind} {:?}", start)),
         }
     }
+    // ---- size_hint as the pair the source returns (op ax.hint) ---------------------------------
+    for _ in 0..c.n(4_000, 50_000) {
+        let weeks = c.rng.chance(1, 2);
+        let step: i64 = if weeks { 7 } else { 1 };
+        let start = match c.rng.below(5) {
+            0 => g_date(c),
+            1 => date_of_dn(dmax - c.rng.below(30) as i64),
+            2 => date_of_dn(dmin + c.rng.below(30) as i64),
+            3 => date_of_dn((dmin + dmax) / 2 + c.rng.range(-9, 9)),
+            _ => gen_date(c),
+        };
+        let h = guard(|| if weeks { start.iter_weeks().size_hint() } else { start.iter_days().size_hint() });
+        let kind = if weeks { "weeks" } else { "days" };
+        c.op(&format!("ax.hint {kind} {}", yof(&start)), &match &h {
+            Ok((lo, Some(hi))) => format!("{lo} {hi}"),
+            Ok((lo, None)) => format!("{lo} none"),
+            Err(()) => "panic".into(),
+        });
+        let want = ((dmax - dn(&start)) / step) as usize;
+        if h != Ok((want, Some(want))) {
+            fl.hit(c, "size_hint is not (n, Some(n)) with n the days / whole weeks from the cursor up to MAX", || format!("{kind} {:?} -> {:?}, expected {want}", start, h));
+        }
+        c.count(if want == 0 { "hint-pair:zero" } else { "hint-pair:positive" });
+    }
+
+    // ---- interleaved next / next_back on one iterator (ops ax.mix, ax.run) --------------------
+    for it in 0..c.n(6_000, 80_000) {
+        let weeks = c.rng.chance(1, 2);
+        let step: i64 = if weeks { 7 } else { 1 };
+        let kind = if weeks { "weeks" } else { "days" };
+        let len = 1 + c.rng.below(16) as usize;
+        let bias = c.rng.below(4); // 0: mostly forward, 1: mostly backward, else even
+        let script: String = (0..len)
+            .map(|_| {
+                let b = match bias {
+                    0 => c.rng.chance(1, 5),
+                    1 => c.rng.chance(4, 5),
+                    _ => c.rng.chance(1, 2),
+                };
+                if b { 'b' } else { 'f' }
+            })
+            .collect();
+        let start = match c.rng.below(4) {
+            0 => g_date(c),
+            1 => date_of_dn(dmax - c.rng.below(4 * step as u64 + 2) as i64),
+            2 => date_of_dn(dmin + c.rng.below(4 * step as u64 + 2) as i64),
+            _ => gen_date(c),
+        };
+        type Step = ((usize, Option<usize>), Option<NaiveDate>);
+        let res: Result<(Vec<Step>, (usize, Option<usize>)), ()> = guard(|| {
+            let mut out = vec![];
+            let mut days = start.iter_days();
+            let mut wks = start.iter_weeks();
+            for ch in script.chars() {
+                let h = if weeks { wks.size_hint() } else { days.size_hint() };
+                let item = match (weeks, ch) {
+                    (false, 'f') => days.next(),
+                    (false, _) => days.next_back(),
+                    (true, 'f') => wks.next(),
+                    (true, _) => wks.next_back(),
+                };
+                out.push((h, item));
+            }
+            (out, if weeks { wks.size_hint() } else { days.size_hint() })
+        });
+        let sh = |h: &(usize, Option<usize>)| format!("{}/{}", h.0, h.1.map(|v| v.to_string()).unwrap_or_else(|| "none".into()));
+        if it % 2 == 0 {
+            c.op(&format!("ax.mix {kind} {script} {}", yof(&start)), &match &res {
+                Ok((v, last)) => {
+                    let mut parts: Vec<String> = v.iter().map(|(h, item)| format!("{}:{}", sh(h), item.map(|d| yof(&d).to_string()).unwrap_or_else(|| "none".into()))).collect();
+                    parts.push(sh(last));
+                    parts.join(" ")
+                }
+                Err(()) => "panic".into(),
+            });
+        } else {
+            c.op(&format!("ax.run {kind} {script} {}", yof(&start)), &match &res {
+                Ok((v, _)) => v.iter().map(|(_, item)| item.map(|d| yof(&d).to_string()).unwrap_or_else(|| "none".into())).collect::<Vec<_>>().join(" "),
+                Err(()) => "panic".into(),
+            });
+        }
+        match &res {
+            Ok((v, last)) => {
+                // independent: one cursor on day numbers
+                let mut cur = dn(&start);
+                let mut seen: Vec<i64> = vec![];
+                let mut turned = false;
+                let mut prev: Option<char> = None;
+                for ((h, item), ch) in v.iter().zip(script.chars()) {
+                    let want_h = ((dmax - cur) / step) as usize;
+                    if *h != (want_h, Some(want_h)) {
+                        fl.hit(c, "interleaved calls: size_hint is not the forward count from the cursor", || format!("{kind} {script} {:?}: {:?}, expected {want_h}", start, h));
+                    }
+                    let target = if ch == 'f' { cur + step } else { cur - step };
+                    let fits = target >= dmin && target <= dmax;
+                    match item {
+                        Some(d) if fits && dn(d) == cur && well_formed(d) => {
+                            if seen.contains(&cur) {
+                                c.count("iter:mix:a-date-returned-twice(one cursor, not two ends; see F28)");
+                            }
+                            seen.push(cur);
+                            cur = target;
+                        }
+                        None if !fits => c.count("iter:mix:call-refused-at-range-end"),
+                        _ => fl.hit(c, "interleaved next/next_back: a call did not return the cursor and move it by exactly one step (or refuse exactly at the range end)", || format!("{kind} {script} {:?} at '{ch}' cursor day {cur} -> {:?}", start, item.map(|d| pd(&d)))),
+                    }
+                    if prev.is_some() && prev != Some(ch) {
+                        turned = true;
+                    }
+                    prev = Some(ch);
+                }
+                let want_h = ((dmax - cur) / step) as usize;
+                if *last != (want_h, Some(want_h)) {
+                    fl.hit(c, "interleaved calls: size_hint is not the forward count from the cursor", || format!("{kind} {script} {:?}: final {:?}, expected {want_h}", start, last));
+                }
+                c.count(if turned { "iter:mix:direction-changed" } else { "iter:mix:one-direction" });
+                if !turned {
+                    // Iterator::nth / DoubleEndedIterator::nth_back (std default methods): the item of the last call
+                    let fwd = script.starts_with('f');
+                    let k = len - 1;
+                    let nth = guard(|| match (weeks, fwd) {
+                        (false, true) => start.iter_days().nth(k),
+                        (false, false) => start.iter_days().nth_back(k),
+                        (true, true) => start.iter_weeks().nth(k),
+                        (true, false) => start.iter_weeks().nth_back(k),
+                    });
+                    if nth != Ok(v.last().and_then(|x| x.1)) {
+                        fl.hit(c, "nth(k) / nth_back(k) is not the item of the (k+1)-th call", || format!("{kind} {script} {:?}", start));
+                    }
+                    c.count("iter:nth/nth_back = item of the last call of a one-direction script");
+                    // within one direction no day is repeated or skipped
+                    let mut s2 = seen.clone();
+                    s2.dedup();
+                    if s2.len() != seen.len() || seen.windows(2).any(|w| (w[1] - w[0]).abs() != step) {
+                        fl.hit(c, "one-direction iteration repeated or skipped a day", || format!("{kind} {script} {:?}", start));
+                    }
+                }
+            }
+            Err(()) => fl.hit(c, "interleaved iterator calls panicked", || format!("{kind} {script} {:?}", start)),
+        }
+    }
+
+    // ---- zone-aware values at the range ends, every kind of offset ------------------------------
+    for it in 0..c.n(6_000, 80_000) {
+        let at_max = c.rng.chance(1, 2);
+        let j: i128 = match c.rng.below(4) {
+            0 => 0,
+            1 => c.rng.below(3) as i128,
+            2 => c.rng.below(3) as i128 * NS + c.rng.below(2) as i128,
+            _ => c.rng.below(200_000) as i128 * NS + c.rng.below(1_000_000_000) as i128,
+        };
+        let i0 = if at_max { imax - j } else { imin + j };
+        let utc = {
+            let day = i0.div_euclid(DAY);
+            let tod = i0.rem_euclid(DAY);
+            NaiveDateTime::new(date_of_dn((day + EPOCH_DAY) as i64), mk_time((tod / NS) as u32, (tod % NS) as u32))
+        };
+        let off = match c.rng.below(3) {
+            0 => *c.rng.pick(&[86_399, -86_399, 86_398, -86_398, 0, 1, -1]),
+            _ => g_off(c),
+        };
+        let z = DateTime::<FixedOffset>::from_naive_utc_and_offset(utc, FixedOffset::east_opt(off).unwrap());
+        // towards / across the near end, or across the whole range to the far end
+        let toward: i128 = if at_max { 1 } else { -1 };
+        let ns: i128 = match c.rng.below(6) {
+            0 => toward * j,
+            1 => toward * (j + 1),
+            2 => toward * (j + c.rng.below(3) as i128),
+            3 => -toward * (imax - imin - j),
+            4 => -toward * (imax - imin - j + 1),
+            _ => toward * c.rng.range(-3, 3) as i128 * *c.rng.pick(&[1i128, NS, DAY]),
+        };
+        let ns = ns.clamp(-TD_MAX_NS, TD_MAX_NS);
+        let td = td_of_ns(ns.abs());
+        let (ds, dnn) = td_raw(&td);
+        let add = ns >= 0;
+        let got = guard(|| if add { z.checked_add_signed(td) } else { z.checked_sub_signed(td) });
+        c.op(&format!("{} {} {ds} {dnn}", if add { "ar.zadd" } else { "ar.zsub" }, enc_z(&z)), &s_oz(&got));
+        let target = i0 + ns;
+        let in_range = target >= imin && target <= imax;
+        let local_out = { let l = i0 + off as i128 * NS; l < imin || l > imax };
+        c.count(&format!("zoned-range-end:{}:{}", if in_range { "value" } else { "refused" }, if local_out { "wall-clock-outside-the-range" } else { "wall-clock-inside" }));
+        if target == imin || target == imax {
+            c.count("zoned-range-end:lands-exactly-on-MIN/MAX");
+        }
+        match &got {
+            Ok(Some(r)) if in_range && inst(&r.naive_utc()) == target && r.offset().local_minus_utc() == off && !is_leap_dt(&r.naive_utc()) => {}
+            Ok(None) if !in_range => {}
+            _ => fl.hit(c, "zone-aware value at the range end: the sum is not the exact instant with the offset kept, or the offset entered the range check", || format!("{} {ds} {dnn} add={add} -> {}", enc_z(&z), s_oz(&got))),
+        }
+        // distance to the other end / to itself under another offset
+        if it % 2 == 0 {
+            let other_i = match c.rng.below(3) {
+                0 => if at_max { imin } else { imax },
+                1 => i0,
+                _ => if at_max { imin + c.rng.below(5) as i128 } else { imax - c.rng.below(5) as i128 },
+            };
+            let o = {
+                let day = other_i.div_euclid(DAY);
+                let tod = other_i.rem_euclid(DAY);
+                NaiveDateTime::new(date_of_dn((day + EPOCH_DAY) as i64), mk_time((tod / NS) as u32, (tod % NS) as u32))
+            };
+            let w = DateTime::<FixedOffset>::from_naive_utc_and_offset(o, FixedOffset::east_opt(g_off(c)).unwrap());
+            let d = guard(|| z.signed_duration_since(w));
+            c.op(&format!("ar.zdiff {} {}", enc_z(&z), enc_z(&w)), &s_td(&d));
+            match &d {
+                Ok(x) if td_ns(x) == i0 - other_i => {}
+                _ => fl.hit(c, "zone-aware values at the range ends: the difference is not the distance of the instants", || format!("{} {}", enc_z(&z), enc_z(&w))),
+            }
+        }
+    }
+
+    // ---- NaiveDate::signed_duration_since at its extremes -------------------------------------------
+    for _ in 0..c.n(400, 4_000) {
+        let a = date_of_dn(if c.rng.chance(1, 2) { dmax - c.rng.below(3) as i64 } else { dmin + c.rng.below(3) as i64 });
+        let b = date_of_dn(if c.rng.chance(1, 2) { dmax - c.rng.below(3) as i64 } else { dmin + c.rng.below(3) as i64 });
+        let diff = guard(|| a.signed_duration_since(b));
+        c.op(&format!("ar.ddiff {} {}", yof(&a), yof(&b)), &s_td(&diff));
+        match &diff {
+            Ok(x) if td_ns(x) == (dn(&a) - dn(&b)) as i128 * DAY && td_ns(x).abs() <= (dmax - dmin) as i128 * DAY => {
+                if td_ns(x).abs() == (dmax - dmin) as i128 * DAY {
+                    c.count("ddiff:extreme(±full range)");
+                }
+            }
+            _ => fl.hit(c, "date difference at the range ends is not the exact number of days", || format!("{:?} - {:?}", a, b)),
+        }
+    }
+
     // ExactSizeIterator::len and count() on short forward drains
     for k in 0..c.n(40, 400) as u64 {
         let start = date_of_dn(dmax - k as i64);
